@@ -144,7 +144,15 @@ def dict_keys(model, R):
         ok = (isinstance(v, ast.Call) and (chain(v.func) or [''])[-2:] == ['Lattice', '_fromlist'] and [src(a) for a in v.args] == [inst, 'lattice', fd.params[4]])
         R.check(ok, 'AGREEMENT', fd, att[0], 'fromdict rebuilds the lattice from the stored list for the new context, honouring raw',
                 f'lattices.Lattice._fromlist({inst}, lattice, {fd.params[4]})', src(v))
-        guard = [s for s in fd.body if isinstance(s, ast.If) and att[0] in s.body]
+        from ..astutil import context_of
+        # the tests of the enclosing ifs (the preceding raise-guards are validation, judged by the GUARD rules)
+        pc_ = [(c_[1], c_[2]) for c_ in (context_of(fd.body, att[0]) or []) if c_[0] == 'if']
+        guard = []
+        if pc_:
+            # the conjunction of every test on the way to the assignment (nested ifs and guard clauses alike)
+            conj = [t_ if pol_ else ast.UnaryOp(op=ast.Not(), operand=t_) for t_, pol_ in pc_]
+            whole = conj[0] if len(conj) == 1 else ast.BoolOp(op=ast.And(), values=conj)
+            guard = [type('G', (), {'test': whole, 'lineno': getattr(pc_[0][0], 'lineno', att[0].lineno), '_fields': ()})()]
         ok = False
         decided_guard = False
         if guard:
